@@ -1,18 +1,14 @@
-# T06 (extension, not a numbered property) — a whole run of the tackler BINARY is one function of the model:
-# T06_run.run_console (the complete standard output in console mode) and T06_run.run_files (the files of
-# --output.dir and the announcements), composed of the existing models (journal text -> load -> filter -> metadata ->
-# per report head and body -> separators; equity / identity exports).  coq/props/T06.v states the structure of that
-# text, that the embedded reports are the texts of T01 / T05 / T04 (so their figure theorems hold for the transactions
-# parsed from the journal text), all-or-nothing on errors, the file mode, and layout invariance.
-# ./check T06 runs the proof audit of coq/props/T06.v and the correspondence stage (gen/t06_text.py: run_stage);
-# ./check C19 runs the same stage with a small number of worlds.
+# T07 (extension of T06, not a numbered property) — the whole-run model with directory input, charts / strict mode and
+# regular-expression account selectors (coq/model/T07_run.v on top of T06_run.v; theorems in coq/props/T07.v).
+# ./check T07 runs the proof audit of coq/props/T07.v and the T07 part of the correspondence stage of gen/t06_text.py
+# (corpus/T07 + worlds of the six T07 profiles only); ./check T06 and ./check C19 run the same worlds mixed with T06's.
 import json
 from common import *
 import t06_text as T
 
 
 def main(run):
-    info = proof_stage(run, "T06", extra_targets=["corr/T06_corr.vo", "corr/T07_corr.vo"])
+    info = proof_stage(run, "T07", extra_targets=["corr/T06_corr.vo", "corr/T07_corr.vo"])
     st = T.run_stage(run)
     run.cov["evaluations"] += st["worlds"]
     run.cov["distinct_nontrivial"] = st["distinct_outputs"]
